@@ -30,7 +30,7 @@ N_SHARDS = 16
 
 
 def plan(tier, seed):
-    sets = 6000 if tier == "quick" else 60800
+    sets = 6000 if tier == "quick" else 600000
     return [{"part": p, "parts": N_SHARDS, "sets": sets, "label": "messages-%d" % p} for p in range(N_SHARDS)]
 
 
